@@ -14,7 +14,7 @@ from gym_gridverse.geometry import Position
 from gym_gridverse.grid_object import Beacon, Door, Exit, Floor, Key, MovingObstacle, Wall, grid_object_registry
 
 from .. import compose, dyndrive, enc, gen, refmodel, workloads
-from ..monitor import Patch, call_real, describe_exc, exc_site, reach
+from ..monitor import Patch, call_real, describe_exc, env_slot, exc_site, reach
 
 ID = 'C12'
 LEVEL = 'exploration'
@@ -356,8 +356,19 @@ class Spy:
         return value
 
 
+def install_spies(env):
+    """wrap the environment's reward and termination functions (the attributes are found by what they are, not by name)"""
+    r_slot, t_slot = env_slot(env, 'reward'), env_slot(env, 'termination')
+    if r_slot is None or t_slot is None:
+        raise LookupError('the environment keeps its reward / termination function where the harness cannot find them')
+    rs, ts = Spy(getattr(env, r_slot)), Spy(getattr(env, t_slot))
+    setattr(env, r_slot, rs)
+    setattr(env, t_slot, ts)
+    env._gvmon_spies = (rs, ts)
+
+
 def spied_step(ctx, env, state, action, label, payload_fn):
-    rs, ts = env._reward_function, env._termination_function
+    rs, ts = env._gvmon_spies
     rs.calls.clear()
     ts.calls.clear()
     before = enc.es(state)
@@ -460,8 +471,7 @@ def drive_compositions(ctx, n, log):
         # GridWorld level
         holder = {}
         env = comp.build(lambda rng=None: holder['s'])
-        env._reward_function = Spy(env._reward_function)
-        env._termination_function = Spy(env._termination_function)
+        install_spies(env)
         env.set_seed(k)
         full = {'name': 'reduce_sum', 'reward_functions': comp.rewards}
         for j in range(ctx.pick(4, 8)):
@@ -507,8 +517,7 @@ def drive_shipped(ctx, log, seeds, steps):
                 if pol == 'goal' and not any(k in name for k in ('empty', 'crossing.5x5', 'keydoor.5x5', 'four_rooms.7x7', 'memory.5x5', 'teleport.5x5')):
                     continue
                 env = compose.factory_env(data)
-                env._reward_function = Spy(env._reward_function)
-                env._termination_function = Spy(env._termination_function)
+                install_spies(env)
                 seed = ctx.seed * 1000 + s
                 env.set_seed(seed)
                 ok, state = call_real(env.functional_reset)
@@ -687,8 +696,7 @@ def replay(ctx, kind, payload):
                 env = comp.build(lambda rng=None: state)
                 full = {'name': 'reduce_sum', 'reward_functions': comp.rewards}
                 term = comp.terminating
-            env._reward_function = Spy(env._reward_function)
-            env._termination_function = Spy(env._termination_function)
+            install_spies(env)
             env.set_seed(0)
             res = spied_step(ctx, env, state, action, 'replay', lambda: payload)
             if res:
